@@ -39,7 +39,11 @@ def run_case(ctx, case, ir, with_v=True):
         setattr(p, k, case.get(k))
     if case.get('force_ortho'):
         p.force_orthotropic_laminate = True
-    raw = pc.quiet(p.calc_k0, size=size, row0=row0, col0=col0, silent=True, finalize=False).toarray()
+    try:
+        raw = pc.quiet(p.calc_k0, size=size, row0=row0, col0=col0, silent=True, finalize=False).toarray()
+        full = pc.quiet(p.calc_k0, size=size, row0=row0, col0=col0, silent=True, finalize=True).toarray()
+    except Exception as e:                                   # noqa  (an admissible panel definition: the package must deliver the matrix)
+        return None, 'calc_k0 raised %s: %s on an admissible panel definition' % (type(e).__name__, str(e)[:150])
     y12 = (case['y1'], case['y2']) if case['y1'] is not None else None
     kname = 'fk0y1y2' if y12 else 'fk0'
     params = dict(y1=case['y1'], y2=case['y2'])
@@ -55,7 +59,6 @@ def run_case(ctx, case, ir, with_v=True):
     if d > 1e-9:
         v_bad = 'translated %s interpreted on this panel differs from Panel.calc_k0(finalize=False): rel %.3e' % (kname, d)
     # property predicate on the implementation
-    full = pc.quiet(p.calc_k0, size=size, row0=row0, col0=col0, silent=True, finalize=True).toarray()
     # the laminate of the oracle is computed from the case data by an independent lamination theory (not read from the panel)
     want = panel_v.oracle_matrix(case['model'], p, 'k0', {}, size, row0, col0, y12, F=pc.independent_ABD(case))
     if any(ncte):
